@@ -164,7 +164,8 @@ static const char *KINDS[] = {
     "k = 12", "q = -3.5e2", "k = TRUE", "q = false", "k = 1", "  k  =  v2  ", "q = v # c", "k = {x}", "q = 0",
     "k = \"\" ; c", "q = '' # c",                      /* empty quotes followed by a blank and a comment */
     "q = {100 20 3}", "k = {ab c defg h}",
-    "  # k = 1", "\t; q = 2",                         /* comment lines that are indented */             /* list items that get shorter / longer from one to the next */
+    "  # k = 1", "\t; q = 2",                         /* comment lines that are indented */
+    "k = Jos\xc3\xa9", "[\xc3\x9cber]", "\xc3\xa9q = \xe4\xb8\xad",     /* bytes >= 0x80 at the edges of a value, a section name, a key (UTF-8 text is not blank space) */             /* list items that get shorter / longer from one to the next */
     "[ ]", "[]",        /* blank section names: behaviour not documented -> robustness only */
 };
 #define NK ((int)(sizeof KINDS / sizeof KINDS[0]))
@@ -199,6 +200,15 @@ int main(int argc, char **argv)
                 for (i = 0; i < n; i++) { o += snprintf(text + o, sizeof text - o, "%s\n", KINDS[c % NK]); c /= NK; }
                 hout_progress("sig=grammar/crash ini_enum replay grammar (index %ld)", idx);
                 run_grammar_bom(text, o, bom);
+            }
+        }
+        {   /* every file of up to 3 sections named s or t, each with the key lines k / q / k,q / q,k: repeated section names with different keys
+             * (the merge is not documented and not judged, but what is listed must exist and be retrievable) */
+            static const char *NAMES[2] = {"s", "t"}; static const char *KEYS[4] = {"k = 1\n", "q = 2\n", "k = 1\nq = 2\n", "q = 3\nk = 4\n"};
+            int nsec; long c2, tot;
+            if (shard == 0) for (nsec = 1; nsec <= 3; nsec++) {
+                tot = 1; for (i = 0; i < nsec; i++) tot *= 8;
+                for (c2 = 0; c2 < tot; c2++) { char text[256]; size_t o = 0; long c = c2; for (i = 0; i < nsec; i++) { o += snprintf(text + o, sizeof text - o, "[%s]\n%s", NAMES[c & 1], KEYS[(c >> 1) & 3]); c >>= 3; } hout_progress("sig=grammar/crash ini_enum replay grammar (sections %ld)", c2); run_grammar_bom(text, o, 0); }
             }
         }
     } else if (!strcmp(MODE, "long")) {
